@@ -243,6 +243,7 @@ def work(task):
     c = cs[i]
     rules = c.program.rules()
     if c.program.functors(): continue
+    if any(semcheck.in_list_mentions_own_element(r.body or ()) for r in rules): continue      # finding F26 (recorded under C02): rejected for a reason that is not typing
     typer = typemodel.Typer(rules, BASE_SIGS)
     try:
       model_sigs = {p: typer.sig(p) for p in c.program.defined()}
